@@ -1276,6 +1276,13 @@ def describe_operand(body, op, depth=0):
             return "fn:" + op[1]["fn"].get("def", "?")
         if "item" in op[1]:
             return op[1]["item"].split("::")[-1]
+        if "promoted" in op[1] and depth < 8:
+            pd = "%s::{promoted#%d}" % (body.defpath, op[1]["promoted"])
+            if pd in body.crate.by_def:
+                pb = body.crate.body(pd)
+                for i, j, p, rv, _ in pb.assigns():
+                    if p[0] == 0 and not p[1]:
+                        return describe_rvalue(pb, rv, depth + 1)
         return "const"
     if op[0] in ("c", "m"):
         return describe_place(body, op[1], depth)
